@@ -13,10 +13,11 @@ def ops_exhaustive():
 
 def hexs(s): return s.encode().hex() if s else "-"
 
-def stamp_ops(dates):
+def stamp_ops(dates, dostype=0, usedirc=False):
     ops = ["newdev 0 80 2 11"]
     y,m,d = dates[0]
-    ops += [f"clock {y} {m} {d} 10 20 30", f"mkflop 0 {hexs('vol')} 0", "closedev 0", "opendev 0 0", "mount 0 0 0"]
+    ops += [f"clock {y} {m} {d} 10 20 30", f"mkflop 0 {hexs('vol')} {dostype}", "closedev 0", "opendev 0 0", "mount 0 0 0"]
+    if usedirc: ops.append("usedirc 1")        # listings come from the directory cache (16-bit day / minute / tick fields)
     for i,(y,m,d) in enumerate(dates):
         ops += [f"clock {y} {m} {d} 10 20 30", f"mkdir 0 0 {hexs('d%d'%i)}", f"open 1 0 0 {hexs('f%d'%i)} 2", "write 1 10 1", "close 1"]
     ops += ["list 0 0 0", "unmount 0 0", "closedev 0"]
@@ -49,13 +50,17 @@ def oracle(res, exe):
     res.cov["oracle_cases"] = n
     # stamped entries
     rng = vlib.rng_for(res.seed, "C16stamp")
-    dates = [(2000,2,28),(2000,2,29),(2000,3,1),(2024,3,1),(1999,12,31),(2100,3,1),(1978,1,1)]
+    dates = [(2000,2,28),(2000,2,29),(2000,3,1),(2024,3,1),(1999,12,31),(2100,3,1),(1978,1,1),
+             (1979,1,1),(1980,12,31),(1981,1,1),(2001,1,1),(2067,9,18),(2067,9,19),(2068,2,29),(2099,12,31),(2100,12,31)]
     for _ in range(20 if res.tier == "quick" else 200):
         dt = EPOCH + datetime.timedelta(days=rng.randrange(0, 45000))
         dates.append((dt.year, dt.month, dt.day))
-    for chunk in range(0, len(dates), 25):
-        ds = dates[chunk:chunk+25]
-        ops2 = stamp_ops(ds)
+    chunks = [(dates[k:k+25], 0, False) for k in range(0, len(dates), 25)]
+    # the same dates seen through the directory cache (DOS\\4, DOS\\5): the cache keeps 16-bit copies of the stamps
+    chunks += [(dates[:16], 4, True), (dates[:16], 5, True), (dates[16:41], 5, True)]
+    for ds, dostype, usedirc in chunks:
+        if not ds: continue
+        ops2 = stamp_ops(ds, dostype, usedirc)
         rc, blocks, err = vlib.run_c(exe, ops2)
         if rc != 0 or len(blocks) != len(ops2):
             bad.append(("harness failed while stamping dates: rc=%s %s" % (rc, vlib.sanitizer_report(err)), dict(ops=ops2)))
